@@ -280,20 +280,22 @@ Proof.
   assert (E : (1 <=? Z.max oa ob) = true) by (b2p; apply Z.leb_le; lia).
   rewrite E. simpl. rewrite H. kfail.
 Qed.
+Ltac cmp_cases :=
+  repeat match goal with
+  | |- context [?x =? ?y] => destruct (Z.eqb_spec x y)
+  | |- context [?x <? ?y] => destruct (Z.ltb_spec x y)
+  | |- context [?x <=? ?y] => destruct (Z.leb_spec x y)
+  end; simpl; intros; try discriminate; try congruence; try lia.
+Tactic Notation "alg_case" constr(a) constr(k) := destruct (Z.eq_dec a k) as [->|?]; [solve [simpl; cmp_cases]|].
 Lemma loud_AEntry alg r c opt : guarded (AEntry alg r c opt) = true ->
   entry_valid alg r c opt = false -> run_AEntry alg r c opt <> KOk.
 Proof.
   unfold guarded, entry_valid, run_AEntry.
-  destruct (alg =? 0) eqn:A0; destruct (alg =? 1) eqn:A1; destruct (alg =? 2) eqn:A2;
-  destruct (alg =? 3) eqn:A3; destruct (alg =? 4) eqn:A4; destruct (alg =? 5) eqn:A5;
-  destruct (alg =? 6) eqn:A6; destruct (alg =? 7) eqn:A7; destruct (alg =? 8) eqn:A8;
-  destruct (alg =? 9) eqn:A9; destruct (alg =? 10) eqn:A10; destruct (alg =? 13) eqn:A13;
-  destruct (alg =? 14) eqn:A14; destruct (alg =? 15) eqn:A15; destruct (alg =? 16) eqn:A16;
-  simpl; b2p; try lia; try discriminate;
-  destruct (opt =? 0) eqn:O0; destruct (opt =? 2) eqn:O2; destruct (r =? c) eqn:RC;
-  destruct (r =? 0) eqn:R0; destruct (c =? 2) eqn:C2; destruct (0 <? r) eqn:R1;
-  destruct (r <? c) eqn:RltC; destruct (c <=? r) eqn:CleR; destruct (r <=? c) eqn:RleC;
-  simpl; intros; b2p; try discriminate; try lia.
+  alg_case alg 0. alg_case alg 1. alg_case alg 2. alg_case alg 3. alg_case alg 4. alg_case alg 5.
+  alg_case alg 6. alg_case alg 7. alg_case alg 8. alg_case alg 9. alg_case alg 10. alg_case alg 13.
+  alg_case alg 14. alg_case alg 15. alg_case alg 16.
+  repeat match goal with H : alg <> ?k |- _ => apply Z.eqb_neq in H; rewrite H; clear H end.
+  simpl. rewrite !andb_false_r. discriminate.
 Qed.
 
 (* ------------------------------------------------------------------ the theorem *)
